@@ -24,8 +24,9 @@ def c10(c, extra=()):
     c.ens("target_failure_not_swallowed", "not truthy(ghost.target_raised)", top=True, props=["C10"])
     counted = "fc - old(fc) <= ghost.n_calls - old(ghost.n_calls) and ghost.n_calls - old(ghost.n_calls) <= fc - old(fc) + 1"
     for e in ("TargetError", "ValueError", "AssertionError") + tuple(extra):
-        c.may_raise(e, ensures={"counted": counted})
+        c.may_raise(e, ensures={"counted": counted, "flag": "truthy(ghost.target_raised)" if e == "TargetError" else "not truthy(ghost.target_raised)"})
     c.exc_ens("only_valid_calls_counted", counted, top=True, props=["C10"])
+    c.exc_class_when("TargetError", "truthy(ghost.target_raised)", "target_exception_propagates_unchanged", props=["C10"])
 
 
 def common(c):
